@@ -885,12 +885,34 @@ func (e *Exec) index(x, idx Value, it types.Type) Value {
 
 func (e *Exec) slice(fr *frame, x *ssa.Slice) Value {
 	base := e.get(fr, x.X)
+	// a symbolic bound first gets its range obligation (0 <= bound <= limit: a violation is reported
+	// as a finding and the path continues inside the range), then it is case split
+	limit := -1
 	geti := func(v ssa.Value, def int, what string) int {
 		if v == nil {
 			return def
 		}
 		t := e.idxTerm(e.get(fr, v), v.Type())
+		if !t.IsConst() && limit >= 0 {
+			inb := e.b.Ult(t, e.b.ConstU(64, uint64(limit)+1))
+			if inb.isFalse() {
+				e.goPanic("%s: bounds out of range with capacity %d", what, limit)
+			}
+			if !inb.isTrue() {
+				e.run.obligation(e, inb, fmt.Sprintf("%s out of range (capacity %d)", what, limit))
+			}
+		}
 		return e.concretizeBounded(t, what)
+	}
+	switch b := base.(type) {
+	case *SliceV:
+		limit = b.cap
+	case *Ptr:
+		if len(b.alts) == 1 {
+			limit = len(b.alts[0].cell.elems)
+		}
+	case *StrV:
+		limit = len(b.bs)
 	}
 	switch b := base.(type) {
 	case *SliceV:
